@@ -51,6 +51,7 @@ DECODE_SCRIPT = [
 def run(ctx):
     _run_main6(ctx)
     _round6(ctx)
+    _round7(ctx)
 
 
 def _run_main6(ctx):
@@ -187,3 +188,10 @@ def _round6(ctx):
     from rules import arms as A
     with ctx.rule('R19.6', "the URL's connection_timeout is armed before the transport is touched: start / start_tls install it from the options (shared with C16)", floor=3) as r:
         A.include(ctx, r, 'c16', 'R16.5', pick=('timeout-from-options', 'timeout-writers'))
+
+
+def _round7(ctx):
+    """Found by seeding round 7 (minimal one-line mutations)."""
+    from rules import arms as A
+    with ctx.rule('R19.7', "user and password reach the PLAIN response in that order (shared with C16)", floor=1) as r:
+        A.include(ctx, r, 'c16', 'R16.3', pick=('Auth::response',))
